@@ -28,6 +28,10 @@ type NodeShape struct {
 	// resolved per call site (producers, builtNodes)
 	NodeTypeParam *ssa.Parameter
 	ValueParam    *ssa.Parameter
+	// the node type is chosen among constants (a phi): the value, and every
+	// constant it can be
+	NodeTypeVal  ssa.Value
+	NodeTypeAlts []string
 }
 
 func (s *NodeShape) String() string {
@@ -217,6 +221,15 @@ func (c *Ctx) shapeOfEvent(ev *prodEvent) *NodeShape {
 			if par, ok := vs[0].(*ssa.Parameter); ok {
 				s.NodeTypeParam = par
 			}
+			if ks, ok := c.constsFor(vs[0], nil); ok {
+				s.NodeTypeVal = vs[0]
+				for _, k := range ks {
+					s.NodeTypeAlts = append(s.NodeTypeAlts, c.A.NTName[k])
+				}
+				if len(ks) == 1 {
+					s.NodeType = c.A.NTName[ks[0]]
+				}
+			}
 		}
 	} else if len(vs) > 1 {
 		s.NodeType = "⊤"
@@ -255,9 +268,13 @@ func (c *Ctx) payloadType(v ssa.Value) (string, []string, int) {
 			}
 		}
 		if sl, ok := v.X.(*ssa.Slice); ok {
-			if al, ok := sl.X.(*ssa.Alloc); ok && sl.Low == nil && sl.High == nil {
+			if al, ok := sl.X.(*ssa.Alloc); ok && sl.Low == nil {
 				if at, ok := al.Type().(*types.Pointer).Elem().Underlying().(*types.Array); ok {
-					n = int(at.Len())
+					if sl.High == nil {
+						n = int(at.Len())
+					} else if h, ok := constInt(sl.High); ok && h <= at.Len() {
+						n = int(h) // make([]T, h) with a constant length
+					}
 				}
 			}
 		}
@@ -500,6 +517,19 @@ func (c *Ctx) producers() []*NodeShape {
 							out = append(out, exp...)
 							continue
 						}
+					}
+					if len(s.NodeTypeAlts) > 1 {
+						// a node whose type is one of several constants: one producer per type
+						cl := clauseAtPos(sw, ev.pos)
+						for _, nt := range s.NodeTypeAlts {
+							cp := *s
+							cp.NodeType = nt
+							if cl != nil {
+								cp.Clause = cl.Name()
+							}
+							out = append(out, &cp)
+						}
+						continue
 					}
 					if cl := clauseAtPos(sw, ev.pos); cl != nil {
 						s.Clause = cl.Name()
